@@ -5,7 +5,7 @@
 use cfg_if::cfg_if;
 
 cfg_if! {
-    if #[cfg(feature = "pmtree-ft")] {
+    if #[cfg(all(feature = "pmtree-ft", not(feature = "fullmerkletree")))] {
         use crate::pm_tree_adapter::*;
     } else {
         use crate::hashers::{PoseidonHash};
